@@ -99,3 +99,12 @@ Example C17_example_boundaries :
   scan_move 10 0 (enc_tape (mktape [5] 0 0)) 0 7 DN = Ok ([Sym 7; Head; Sep], 3) /\
   encode [mktape [5;6] 1 0; mktape [0] 0 0] = [Sym 5; Sym 6; Head; Sep; Sym 0; Head; Sep].
 Proof. vm_compute. repeat split. Qed.
+
+(* an entry with an empty list of alternatives: the simulation's `for next_config in possible_configs`
+   appends nothing, the native run treats the entry like a missing one - both reject *)
+Example C17_example_no_alternative :
+  let m := mkmntm 2 [(0, [([1; 0], [(0, [(1, DR); (1, DL)])]); ([0; 0], [])])] 0 0 [1] in
+  valid_mntm m = true /\ valid_tapes m = true /\
+  sim_accepts m 20 [1;1] = Ok false /\ mntm_accepts m 20 [1;1] = Ok false /\
+  length (fst (sim_stepwise m 20 [1;1])) = 3 /\ length (fst (mntm_stepwise m 20 [1;1])) = 3.
+Proof. vm_compute. repeat split. Qed.
